@@ -149,7 +149,7 @@ func init() {
 				t = e.ts.Bin(OpBvXor, t, sel)
 			}
 			call.term = t
-			if len(call.vars) == 0 || e.concrete != nil {
+			if e.concrete != nil {
 				return t
 			}
 			if e.spec > 0 {
